@@ -699,6 +699,11 @@ def run(ck, C2M, WORK, drv, runcmd, cases, QUICK, layout_eval):
             with ThreadPoolExecutor(max_workers=16) as ex:
                 done += list(zip(extra, ex.map(shrink_one, extra)))
         for (pr, v), (small, sv, sig) in done:
+            if sig in ("C08:class-nested-aggregate-straddles-eightbyte", "C08:class-zero-width-bitfield-integer") and any(
+                    sv["locs"].get(e) is not None and sv.get("m_c2m") is not None and sv["locs"][e] != sv["m_c2m"] for e in ("-eg", "-ei")):
+                # the listed classification findings are what c2mClassify (model of the unchanged code) predicts;
+                # argument locations it does not predict are a new deviation
+                sig = "C08:code-deviates-from-model-of-current-code:" + sig.split(":", 1)[-1]
             if origin == "corpus-regression":
                 sig = "C08:regression-of-fixed-finding:" + sig.split(":", 1)[-1]   # never listed: always a VIOLATION
             stats["classes"][sig] = stats["classes"].get(sig, 0) + 1
@@ -774,6 +779,19 @@ def run(ck, C2M, WORK, drv, runcmd, cases, QUICK, layout_eval):
         for en in G.ENUM_NAMES:
             e = ("sc", en)
             add([e, ("agg", False, [("p", e), ("p", F)]), ("agg", False, [("p", e), ("p", e)]), L])
+        # arrays as members (classify_arg TM_ARR replicates the element's eightbyte classes): 1..3 elements of
+        # 16-byte structs with two different classes, of 8-byte structs, of long double; as parameter and as
+        # return value
+        I4 = ("sc", "int")
+        S = lambda *ms: ("agg", False, [("p", m) for m in ms])
+        els = [S(L, D), S(D, L), S(D, D), S(L, L), S(F, F, L), S(L, F), S(I4, F), S(F, I4), S(F, F), S(D), S(L),
+               ("agg", True, [("p", L), ("p", D)]), LD, D, F, L]
+        for el in els:
+            for n in (1, 2, 3):
+                a = ("arr", n, el)
+                for t in (S(a), S(a, L), S(D, a)) if n == 1 else (S(a),):
+                    out.append((None, [L, t, D]))
+                    out.append((t, [D]))
         return out
 
     cps = [proto_from_str(c["proto"]) for c in cases if c.get("expect") != "pass"]
